@@ -185,6 +185,9 @@ func mk(op, name string, val uint64, s *Sort, args ...*Term) *Term {
 	return t
 }
 
+// NextID is the id the next new term will get (terms with smaller ids already exist).
+func NextID() int { return nextID }
+
 // NumTerms reports how many distinct terms exist (diagnostics).
 func NumTerms() int { return len(termTab) }
 
